@@ -337,6 +337,27 @@ def run_case(case):
                     for name, g in im.grids.items():
                         np.asarray(g)
                     add("insitu_models_built")
+                    # W11: the grids of the continuous choices that the generated solve function
+                    # really HOLDS must be the specified grids (linear / logarithmic spacing)
+                    if j % 3 == 0:
+                        from vlib import pipeline as _pl
+
+                        fgen, _ = _pl.get_lcm_function(m, "solve", jit=False)
+                        ccg = (getattr(fgen, "keywords", None) or {}).get("continuous_choice_grids")
+                        specs = dict(desc["choices"])
+                        if isinstance(ccg, list) and ccg and all(isinstance(x, dict) for x in ccg):
+                            for gd in ccg:
+                                for nm, arr_ in gd.items():
+                                    if nm in specs and specs[nm]["kind"] != "disc":
+                                        exp_ = dsl.ref_grid(specs[nm])
+                                        a_ = np.asarray(arr_, dtype=float)
+                                        add("w11_held_choice_grids_checked")
+                                        from vlib import bootstrap as _bs
+
+                                        if a_.shape != exp_.shape or np.max(np.abs(a_ - exp_)) > (1e-9 if _bs.X64 else 1e-5) * (1 + np.abs(exp_).max()):
+                                            res["violations"].append({"key": f"held_choice_grid_not_as_specified|{specs[nm]['kind']}", "what": f"the generated solve function holds {a_.tolist()[:6]} as grid of the continuous choice {nm}; the specification {specs[nm]} materialises to {exp_.tolist()[:6]}"})
+                        else:
+                            add("w11_unavailable")
                 except (contracts.InvariantBroken, contracts.PostBroken) as e:
                     res["violations"].append({"key": "insitu_contract_broken", "what": f"grid contract broken while building a generated model: {str(e)[-200:]}"})
                 if len(samples) < 2:
